@@ -179,8 +179,14 @@ func curGoid() uint64 {
 
 //go:norace
 func (s *Sched) waitBaton(me int) {
-	for s.baton != me {
-		runtime.Gosched()
+	for i := 0; s.baton != me; i++ {
+		if i < 200 {
+			runtime.Gosched()
+		} else {
+			// sleeping creates no happens-before edge either; it only keeps N-1 waiting tasks
+			// from burning N-1 cores
+			time.Sleep(20 * time.Microsecond)
+		}
 	}
 }
 
